@@ -93,6 +93,9 @@ def decode(val, decl, ns, log, guards_cb, name="v"):
     if kind == "nt":
         cls = import_class(decl[1])
         return cls(*[decode(v, d, ns, log, guards_cb) for v, d in zip(val["items"], decl[2])])
+    if kind == "listof":
+        items = val.get("__list__", []) if isinstance(val, dict) else []
+        return [decode(items[i] if i < len(items) else None, d, ns, log, guards_cb) for i, d in enumerate(decl[1])]
     if kind == "opt":
         inner = decl[1]
         if val is None and not (isinstance(inner, tuple) and inner[0] in ("callable", "effect")):
